@@ -3,6 +3,7 @@ package main
 import (
 	"fmt"
 	"go/token"
+	"go/types"
 	"sort"
 	"strings"
 
@@ -25,6 +26,8 @@ func init() {
 			"C29.R4 MPT: the field walk drops only /FT /Sig fields and descends into every group before keeping it",
 			"C29.R6 MPT: a /Fields entry keeps its own reference only where there is nothing to match or after the page-widget match was tried",
 			"C29.R5 pairing: the annotation reference removed from a page is the reference of the widget whose /P named the page",
+			"C29.R7 dominance: on the no-signatures edge a nil-error exit is behind conf.Cmd != REMOVESIGNATURES",
+			"C29.R8 shape: the widget reference is removed from a page's /Annots at every position (the loop over the array is not left at the first match)",
 			"C29.R3 coverage: RemoveAllSignatures deletes Perms and DSS on every path, SigFlags/AcroForm when fields were dropped",
 		},
 		Assumptions: []string{"the validator's catalog table (validate.validateRootObject) lists the ISO 32000 catalog keys"},
@@ -70,6 +73,10 @@ func runC29(c *Ctx) {
 	r.MinInst["C29.R6"] = 3
 	checkSigFieldNormalisation(c)
 	checkSignatureFieldWalk(c)
+	r.MinInst["C29.R7"] = 1
+	checkExplicitRemoveFailsWhenEmpty(c)
+	r.MinInst["C29.R8"] = 1
+	checkAnnotRemovalComplete(c)
 
 	// ---------- R1
 	if fn := p.Func("pkg/api.ReadAndValidate"); fn == nil {
@@ -719,5 +726,181 @@ func checkSigFieldNormalisation(c *Ctx) {
 	}
 	if n == 0 {
 		r.Bad("C29.R6", fid, "own reference", p.Pos(fn.Pos()), "UNRESOLVED-ANCHOR: no return of the field's own reference found")
+	}
+}
+
+// ---------------- C29.R7 (round 4 seed C29-C): the explicit command never succeeds on an unsigned document ----------------
+
+// checkExplicitRemoveFailsWhenEmpty: removal can be asked for in two ways — the command (conf.Cmd ==
+// REMOVESIGNATURES) and the option (ctx.RemoveSignatures with a command that allows it). Only for the option is
+// "nothing to remove" a success. On the len(ctx.Signatures) == 0 edge of api.ReadAndValidate every exit with a nil
+// error is therefore behind the edge on which conf.Cmd is known to differ from REMOVESIGNATURES.
+func checkExplicitRemoveFailsWhenEmpty(c *Ctx) {
+	p, r := c.P, c.R
+	const fid = "pkg/api.ReadAndValidate"
+	fn := p.Func(fid)
+	if fn == nil {
+		r.Bad("C29.R7", fid, "anchor", "", "UNRESOLVED-ANCHOR")
+		return
+	}
+	var emptyEdges, notCmdEdges []Edge
+	eachInstr(fn, func(_ *ssa.BasicBlock, _ int, i ssa.Instruction) {
+		b, ok := i.(*ssa.BinOp)
+		if !ok {
+			return
+		}
+		if la := lenArgOf(b.X); la != nil && strings.HasSuffix(accessPath(la), ".Signatures") {
+			if k, ok := constInt(b.Y); ok && k == 0 {
+				switch b.Op {
+				case token.EQL:
+					emptyEdges = append(emptyEdges, condEdges(b, true)...)
+				case token.NEQ, token.GTR:
+					emptyEdges = append(emptyEdges, condEdges(b, false)...)
+				}
+			}
+			return
+		}
+		if b.Op != token.EQL && b.Op != token.NEQ {
+			return
+		}
+		for _, pair := range [][2]ssa.Value{{b.X, b.Y}, {b.Y, b.X}} {
+			cst, ok := pair[1].(*ssa.Const)
+			if !ok || !strings.HasSuffix(accessPath(pair[0]), ".Cmd") || commandModeName(p, cst) != "REMOVESIGNATURES" {
+				continue
+			}
+			notCmdEdges = append(notCmdEdges, condEdges(b, b.Op == token.NEQ)...)
+		}
+	})
+	if len(emptyEdges) == 0 {
+		r.Bad("C29.R7", fid, "empty edge", p.Pos(fn.Pos()), "UNRESOLVED-ANCHOR: no test of len(ctx.Signatures) against 0")
+		return
+	}
+	n := 0
+	for _, b := range fn.Blocks {
+		onEmpty := false
+		for _, e := range emptyEdges {
+			if edgeDominates(e, b) {
+				onEmpty = true
+			}
+		}
+		if !onEmpty {
+			continue
+		}
+		success := false
+		var at ssa.Instruction
+		for _, in := range b.Instrs {
+			switch x := in.(type) {
+			case *ssa.Store:
+				if al, ok := x.Addr.(*ssa.Alloc); ok && isErrorType(al.Type().(*types.Pointer).Elem()) && isNilConst(x.Val) {
+					success, at = true, in
+				}
+			case *ssa.Return:
+				if k, ok := returnErrKind(x); ok && k == errNil {
+					if _, spilled := x.Results[len(x.Results)-1].(*ssa.UnOp); !spilled {
+						success, at = true, in
+					}
+				}
+			}
+		}
+		if !success {
+			continue
+		}
+		n++
+		construct := fmt.Sprintf("success exit#%d on the no-signatures edge", n)
+		behind := false
+		for _, e := range notCmdEdges {
+			if edgeDominates(e, b) {
+				behind = true
+			}
+		}
+		if behind {
+			r.OK("C29.R7", fid, construct, p.Pos(at.Pos()), "behind conf.Cmd != REMOVESIGNATURES: only the option treats an unsigned document as nothing to do", true)
+		} else {
+			r.Bad("C29.R7", fid, construct, p.Pos(at.Pos()), "with no signatures in the document the function can succeed although conf.Cmd may be REMOVESIGNATURES: the explicit removal then writes an output instead of failing with ErrNoSignatures")
+		}
+	}
+	if n == 0 {
+		r.OK("C29.R7", fid, "success exits on the no-signatures edge", p.Pos(fn.Pos()), "none: every exit on the no-signatures edge is an error", false)
+	}
+}
+
+// ---------------- C29.R8 (round 4 seed C29-D): the widget is taken out of /Annots wherever it is listed ----------------
+
+// checkAnnotRemovalComplete: "no … widget annotations" remain. removePageAnnotationForSig filters the page's
+// /Annots array by comparing each element with the widget's reference; an array may list a reference more than
+// once (validation accepts it), so the loop that does the comparison must run to the end of the array: its only
+// exits are the loop head's (range exhausted) and error returns.
+func checkAnnotRemovalComplete(c *Ctx) {
+	p, r := c.P, c.R
+	const fid = "pkg/pdfcpu/model.removePageAnnotationForSig"
+	fn := p.Func(fid)
+	if fn == nil || len(fn.Params) < 3 {
+		r.Bad("C29.R8", fid, "anchor", "", "UNRESOLVED-ANCHOR")
+		return
+	}
+	ref := fn.Params[2]
+	isRef := func(v ssa.Value) bool {
+		for {
+			switch x := v.(type) {
+			case *ssa.MakeInterface:
+				v = x.X
+				continue
+			case *ssa.ChangeInterface:
+				v = x.X
+				continue
+			}
+			return v == ssa.Value(ref)
+		}
+	}
+	n := 0
+	for _, l := range naturalLoops(fn) {
+		compares := false
+		for b := range l.blocks {
+			for _, in := range b.Instrs {
+				if bo, ok := in.(*ssa.BinOp); ok && (bo.Op == token.EQL || bo.Op == token.NEQ) && (isRef(bo.X) || isRef(bo.Y)) {
+					compares = true
+				}
+			}
+		}
+		if !compares {
+			continue
+		}
+		n++
+		var early []string
+		for b := range l.blocks {
+			if b == l.header {
+				continue
+			}
+			for _, s := range b.Succs {
+				if l.blocks[s] {
+					continue
+				}
+				errOnly := true
+				blocks := reachableBlocks(s)
+				blocks[s] = true
+				for bb := range blocks {
+					if len(bb.Instrs) == 0 {
+						continue
+					}
+					if ret, ok := bb.Instrs[len(bb.Instrs)-1].(*ssa.Return); ok {
+						if k, ok := returnErrKind(ret); !ok || k != errNonNil {
+							errOnly = false
+						}
+					}
+				}
+				if !errOnly {
+					early = append(early, p.Pos(lastPos(b)))
+				}
+			}
+		}
+		sort.Strings(early)
+		if len(early) > 0 {
+			r.Bad("C29.R8", fid, "loop over /Annots", early[0], "the loop that compares the page's annotation references with the widget's reference is left before the end of the array: a widget listed twice in /Annots stays on the page (and keeps the signature field and value reachable) while the removal reports success")
+		} else {
+			r.OK("C29.R8", fid, "loop over /Annots", p.Pos(lastPos(l.header)), "the comparing loop is left only when the array is exhausted (or with an error)", true)
+		}
+	}
+	if n == 0 {
+		r.Bad("C29.R8", fid, "loop over /Annots", p.Pos(fn.Pos()), "UNDECIDED: no loop that compares array elements with the widget's reference")
 	}
 }
